@@ -55,6 +55,8 @@ LEAVES = {
     "chain2": ("leaf_ica.pem", "leaf_ed25519.key", ["ica.pem"]),
     "chain3": ("leaf_chain.pem", "leaf_ed25519.key", ["ica2.pem", "ica.pem"]),
     "chain3-noica": ("leaf_chain.pem", "leaf_ed25519.key", ["ica.pem"]),
+    # a server flight of more than 7 kB: the two intermediates followed by copies (unused certificates in the list are ignored by the verifier)
+    "chain-long": ("leaf_chain.pem", "leaf_ed25519.key", ["ica2.pem", "ica.pem"] + ["ica.pem", "ica2.pem"] * 12),
     "wrongname": ("leaf_wrongname.pem", "leaf_ed25519.key", []),
     "expired": ("leaf_expired.pem", "leaf_ed25519.key", []),
     "notyet": ("leaf_notyet.pem", "leaf_ed25519.key", []),
